@@ -42,6 +42,8 @@ structure St where
   modelSteps : Nat := 0
   errPending : List String := []    -- containers whose pending change stems from an error reply
   reported : List String := []
+  restarts : Nat := 0
+  unsat : List String := []         -- live containers the policy cannot satisfy at all after the restart (harness probe)
   tainted : Bool := false           -- an unchanged configuration was rejected earlier in this history (known finding); later issues are its consequences
   -- statistics
   hists : Nat := 0
@@ -251,7 +253,7 @@ def replay (st : St) (t : TA) : TA × List String :=
   let (t, errs) : TA × List String :=
     -- Synchronize and reconfiguration release and re-allocate every container within one request, in an
     -- order the snapshot does not reveal: only the resulting state is compared for them
-    let bulk := st.lastEv.head? == some "sync" || st.lastEv.head? == some "reconfig"
+    let bulk := st.lastEv.head? == some "sync" || st.lastEv.head? == some "reconfig" || st.lastEv.head? == some "restart"
     match (if bulk then [] else added) with
     | [] => (added.foldl applyUnchecked t, [])
     | [g] =>
@@ -287,7 +289,9 @@ def step (st : St) (toks : List String) : St × List Issue :=
     let st := { st with drained := true }
     let (st, is) := report st (checkState st)
     ({ st with drained := false }, is)
-  | "E" :: ev => ({ st with lastEv := ev, events := st.events + 1 }, [])
+  | "E" :: ev => ({ st with lastEv := ev, events := st.events + 1, unsat := [] }, [])
+  | ["X", "unsat", id] => ({ st with unsat := id :: st.unsat }, [])
+  | "X" :: _ => (st, [])
   | "R" :: "panic" :: rest => report { st with lastOk := false } [s!"C14:handler-panicked {" ".intercalate st.lastEv} {" ".intercalate rest}"]
   | "R" :: "err" :: _ =>
     -- a refused request: a refused create leaves the container without resources
@@ -339,6 +343,17 @@ def step (st : St) (toks : List String) : St × List Issue :=
       | ["start", id] => ((match getCtr st id with | some c => setCtr st { c with state := "running" } | none => st), errs)
       | ["stop", id] => ((match getCtr st id with | some c => setCtr st { c with state := "stopped" } | none => st), errs)
       | ["remove", id] => ((match getCtr st id with | some c => setCtr st { c with state := (if c.state == "stopped" || c.state == "refused" then "removed" else "removed-unstopped") } | none => st), errs)
+      | ["down-remove", id] => ((match getCtr st id with | some c => setCtr st { c with state := "removed" } | none => st), errs)
+      | ["down-stop", id] => ((match getCtr st id with | some c => setCtr st { c with state := "stopped" } | none => st), errs)
+      | ["down-start", id] => ((match getCtr st id with | some c => setCtr st { c with state := "running" } | none => st), errs)
+      | ["down-create", spec, base, stt] =>
+        -- created by the runtime while the plugin was down: the runtime has its own (base) resources for it
+        match parseEvCtr spec with
+        | some c => (setCtr st { c with state := (if stt == "3" then "running" else "created"), rt := parseRes base, seen := [parseRes base], told := parseRes "-|-|-|-|-|-|-" }, errs)
+        | none => (st, errs)
+      | "restart" :: _ =>
+        -- pending marks and error-pending bookkeeping do not survive a restart; every live container is re-allocated
+        ({ st with errPending := [], restarts := st.restarts + 1 }, errs)
       | ["update", spec, base] =>
         match parseEvCtr spec with
         | some c => ((match getCtr st c.id with | some o => setCtr st { o with milli := c.milli, rt := overlay o.rt (parseRes base), seen := parseRes base :: o.seen } | none => st), errs)
@@ -390,7 +405,26 @@ def step (st : St) (toks : List String) : St × List Issue :=
     -- end of a snapshot: evaluate everything
     let st := { st with nodesWithMem := ((kv nm "nodesWithMem").bind String.toNat?).getD 0 }
     let st := if !st.haveInit then { st with initPools := st.snap.pools, haveInit := true } else st
-    let (st, is) := report st (checkState st)
+    -- (while the plugin is down its state is not expected to follow the runtime's world)
+    let down := (st.lastEv.headD "").startsWith "down-"
+    let (st, is) := if down then (st, []) else report st (checkState st)
+    -- C11: after restart + Synchronize exactly the containers the runtime reports created/running hold allocations,
+    -- nothing the runtime no longer knows is left in the cache
+    let (st, is) := if st.lastEv.head? == some "restart" then
+        let live := st.ctrs.filter (fun c => c.state == "created" || c.state == "running")
+        let errs : List String := if st.lastOk then [] else ["C11:synchronize-failed-after-restart"]
+        -- (containers the policy cannot satisfy even when asked directly are reported by the harness as unsat)
+        let errs := if st.lastOk then live.foldl (fun errs c =>
+          if !(st.snap.grants.any (·.ctr == c.id)) && !st.unsat.contains c.id then errs ++ [s!"C11:live-container-without-allocation {c.id} ({c.state})"] else errs) errs else errs
+        let errs := st.snap.grants.foldl (fun errs g =>
+          if !(live.any (·.id == g.ctr)) then errs ++ [s!"C11:allocation-for-container-not-live-at-runtime {g.ctr} ({((getCtr st g.ctr).map (·.state)).getD "unknown"})"] else errs) errs
+        let errs := st.cacheView.foldl (fun errs (id, _, _, _) =>
+          match getCtr st id with
+          | some c => if c.state == "removed" || c.state == "removed-unstopped" || c.state == "refused" then errs ++ [s!"C11:stale-container-in-cache-after-restart {id} ({c.state})"] else errs
+          | none => errs ++ [s!"C11:unknown-container-in-cache-after-restart {id}"]) errs
+        let (st, is2) := report st errs
+        (st, is ++ is2)
+      else (st, is)
     -- C13: a successfully re-applied unchanged configuration leaves the policy state as it was
     let (st, is) := if st.lastEv == ["reconfig", "same"] && st.lastOk && !st.tainted then
         let errs := unchangedInv st.prevSnap st.snap
@@ -413,6 +447,6 @@ def step (st : St) (toks : List String) : St × List Issue :=
   | _ => (st, [⟨.parse, "unknown"⟩])
 
 def main : IO UInt32 := Driver.run step {} (fun st =>
-  s!"hists={st.hists} events={st.events} nontrivial={st.nontrivial} exclusive={st.exclusiveGrants} modelsteps={st.modelSteps}")
+  s!"hists={st.hists} events={st.events} nontrivial={st.nontrivial} exclusive={st.exclusiveGrants} modelsteps={st.modelSteps} restarts={st.restarts}")
 
 end Driver.TA
